@@ -99,6 +99,11 @@ impl Driver for BuiltFunctions {
             GComposite::Func { params, results } => (params.clone(), results.clone()),
             _ => unreachable!(),
         };
+        // the builder is given parameter and result types only: an open or derived function
+        // type cannot be requested through it, so such a function is not a rebuild target
+        if !gm.types[f.ty as usize].is_final || gm.types[f.ty as usize].supertype.is_some() {
+            return Outcome::Discard("reserved function has an open function type");
+        }
         // the body as wasmparser operators
         let mut func = wasm_encoder::Function::new_with_locals_types(f.locals.iter().map(|v| v.val()));
         for ins in &f.body {
